@@ -453,4 +453,647 @@ theorem clsRead_u16 (d : List Nat) (hb : ∀ b ∈ d, b < 256) (c : ClassDef) (h
           · cases h
       · simp [h2] at h
 
+/-! ## glyph sets -/
+
+theorem mem_insertUniq (g y : Nat) : ∀ xs : List Nat, y ∈ insertUniq g xs ↔ y = g ∨ y ∈ xs := by
+  intro xs
+  induction xs with
+  | nil => simp [insertUniq]
+  | cons x rest ih =>
+    unfold insertUniq
+    by_cases h1 : g < x
+    · simp [h1]
+    · by_cases h2 : g = x
+      · subst h2; simp
+      · simp only [h1, h2, if_false, List.mem_cons, ih]
+        constructor
+        · rintro (h | h | h) <;> simp [h]
+        · rintro (h | h | h) <;> simp [h]
+
+theorem length_insertUniq_ge (g : Nat) : ∀ xs : List Nat, xs.length ≤ (insertUniq g xs).length := by
+  intro xs
+  induction xs with
+  | nil => simp [insertUniq]
+  | cons x rest ih =>
+    unfold insertUniq
+    split
+    · simp
+    · split
+      · simp
+      · simp only [List.length_cons]; omega
+
+theorem length_insertUniq_new (g : Nat) : ∀ xs : List Nat, g ∉ xs → (insertUniq g xs).length = xs.length + 1 := by
+  intro xs
+  induction xs with
+  | nil => simp [insertUniq]
+  | cons x rest ih =>
+    intro h
+    simp only [List.mem_cons, not_or] at h
+    unfold insertUniq
+    split
+    · simp
+    · split
+      · exact absurd ‹g = x› h.1
+      · simp only [List.length_cons, ih h.2]
+
+theorem pairwise_insertUniq (g : Nat) : ∀ xs : List Nat, xs.Pairwise (· < ·) → (insertUniq g xs).Pairwise (· < ·) := by
+  intro xs
+  induction xs with
+  | nil => intro _; simp [insertUniq]
+  | cons x rest ih =>
+    intro h
+    have ⟨h1, h2⟩ := List.pairwise_cons.mp h
+    unfold insertUniq
+    by_cases hg : g < x
+    · simp only [hg, if_true]
+      refine List.pairwise_cons.mpr ⟨?_, h⟩
+      intro y hy
+      simp only [List.mem_cons] at hy
+      rcases hy with rfl | hy
+      · exact hg
+      · have := h1 y hy; omega
+    · by_cases he : g = x
+      · simp [hg, he, h]
+      · simp only [hg, he, if_false]
+        refine List.pairwise_cons.mpr ⟨?_, ih h2⟩
+        intro y hy
+        rcases (mem_insertUniq g y rest).mp hy with rfl | hy
+        · omega
+        · exact h1 y hy
+
+/-- an `IntSet<GlyphId16>`: strictly increasing `u16` values -/
+def Inc16 (xs : List Nat) : Prop := xs.Pairwise (· < ·) ∧ ∀ x ∈ xs, x < 65536
+
+theorem inc16_nil : Inc16 [] := ⟨List.Pairwise.nil, by simp⟩
+
+theorem length_le_of_inc (N : Nat) : ∀ (xs : List Nat) (lo : Nat), xs.Pairwise (· < ·) →
+    (∀ x ∈ xs, lo ≤ x ∧ x < N) → xs.length ≤ N - lo := by
+  intro xs
+  induction xs with
+  | nil => intro lo _ _; simp
+  | cons x rest ih =>
+    intro lo hp hb
+    have ⟨h1, h2⟩ := List.pairwise_cons.mp hp
+    have hx := hb x (by simp)
+    have := ih (x + 1) h2 (by
+      intro y hy
+      have := h1 y hy
+      have := hb y (by simp [hy])
+      omega)
+    simp only [List.length_cons]
+    omega
+
+/-- at most 65536 glyphs -/
+theorem Inc16.length_le {xs : List Nat} (h : Inc16 xs) : xs.length ≤ 65536 := by
+  have := length_le_of_inc 65536 xs 0 h.1 (fun x hx => ⟨Nat.zero_le _, h.2 x hx⟩)
+  omega
+
+theorem Inc16.ins {s : G16} (h : Inc16 s) (g : Nat) : Inc16 (s.ins g) := by
+  unfold G16.ins
+  split
+  · refine ⟨pairwise_insertUniq g s h.1, ?_⟩
+    intro x hx
+    rcases (mem_insertUniq g x s).mp hx with rfl | hx
+    · assumption
+    · exact h.2 x hx
+  · exact h
+
+theorem length_ins_ge (s : G16) (g : Nat) : s.length ≤ (s.ins g).length := by
+  unfold G16.ins
+  split
+  · exact length_insertUniq_ge g s
+  · exact Nat.le_refl _
+
+theorem mem_ins_of_mem {s : G16} {g y : Nat} (h : y ∈ s) : y ∈ s.ins g := by
+  unfold G16.ins
+  split
+  · exact (mem_insertUniq g y s).mpr (Or.inr h)
+  · exact h
+
+theorem Inc16.ext {s : G16} (h : Inc16 s) : ∀ xs : List Nat, Inc16 (s.ext xs) := by
+  intro xs
+  unfold G16.ext
+  induction xs generalizing s with
+  | nil => exact h
+  | cons x rest ih => exact ih (h.ins x)
+
+theorem length_ext_ge : ∀ (xs : List Nat) (s : G16), s.length ≤ (s.ext xs).length := by
+  intro xs
+  unfold G16.ext
+  induction xs with
+  | nil => intro s; exact Nat.le_refl _
+  | cons x rest ih =>
+    intro s
+    exact Nat.le_trans (length_ins_ge s x) (ih (s.ins x))
+
+theorem inc16_ofList (xs : List Nat) : Inc16 (G16.ofList xs) := inc16_nil.ext xs
+
+/-- adding glyphs of which one is new makes the set strictly larger -/
+theorem length_ext_gt : ∀ (xs : List Nat) (s : G16), (∃ g ∈ xs, g ∉ s ∧ g < 65536) →
+    s.length < (s.ext xs).length := by
+  intro xs
+  induction xs with
+  | nil => intro s h; obtain ⟨g, hg, _⟩ := h; simp at hg
+  | cons x rest ih =>
+    intro s h
+    obtain ⟨g, hg, hns, hlt⟩ := h
+    show s.length < ((s.ins x).ext rest).length
+    by_cases hx : x ∉ s ∧ x < 65536
+    · have : (s.ins x).length = s.length + 1 := by
+        unfold G16.ins; simp only [hx.2, if_true]; exact length_insertUniq_new x s hx.1
+      have := length_ext_ge rest (s.ins x)
+      omega
+    · have hgx : g ≠ x := by
+        intro he; subst he; exact hx ⟨hns, hlt⟩
+      have hgr : g ∈ rest := by
+        simp only [List.mem_cons] at hg
+        rcases hg with h | h
+        · exact absurd h hgx
+        · exact h
+      have hn : g ∉ s.ins x := by
+        unfold G16.ins
+        split
+        · intro hm
+          rcases (mem_insertUniq x g s).mp hm with h | h
+          · exact hgx h
+          · exact hns h
+        · exact hns
+      have := ih (s.ins x) ⟨g, hgr, hn, hlt⟩
+      have := length_ins_ge s x
+      omega
+
+
+/-! ## the effect of one closure step on the context -/
+
+/-- the active glyphs of a todo are a glyph set -/
+def TodoOk (t : Todo) : Prop := ∀ a, t.2 = some a → Inc16 a
+
+/-- invariant of `ClosureCtx` -/
+def Good (c : Cx) : Prop := Inc16 c.glyphs ∧ ∀ t ∈ c.todos, TodoOk t
+
+/-- what a (sub)table's `add_reachable_glyphs` may do: glyphs only grow (and stay a `u16` set), at most
+`k` todos are pushed, `finished_lookups` and `cur_glyphs` are not touched -/
+structure Eff (c c' : Cx) (k : Nat) : Prop where
+  inc : Inc16 c'.glyphs
+  mono : c.glyphs.length ≤ c'.glyphs.length
+  fin : c'.finished = c.finished
+  cur : c'.cur = c.cur
+  tlen : c'.todos.length ≤ c.todos.length + k
+  tok : ∀ t ∈ c'.todos, TodoOk t
+
+theorem Eff.refl {c : Cx} (h : Good c) : Eff c c 0 :=
+  ⟨h.1, Nat.le_refl _, rfl, rfl, by omega, h.2⟩
+
+theorem Eff.good {c c' : Cx} {k : Nat} (h : Eff c c' k) : Good c' := ⟨h.inc, h.tok⟩
+
+theorem Eff.trans {c c1 c2 : Cx} {k1 k2 : Nat} (h1 : Eff c c1 k1) (h2 : Eff c1 c2 k2) : Eff c c2 (k1 + k2) :=
+  ⟨h2.inc, Nat.le_trans h1.mono h2.mono, by rw [h2.fin, h1.fin], by rw [h2.cur, h1.cur],
+   by have := h1.tlen; have := h2.tlen; omega, h2.tok⟩
+
+theorem Eff.weaken {c c' : Cx} {k k' : Nat} (h : Eff c c' k) (hk : k ≤ k') : Eff c c' k' :=
+  ⟨h.inc, h.mono, h.fin, h.cur, by have := h.tlen; omega, h.tok⟩
+
+/-- a step's result: `Ok` with a bounded effect, or an error — never a panic -/
+def Safe (r : CR Cx) (c : Cx) (k : Nat) : Prop :=
+  match r with
+  | .ok c' => Eff c c' k
+  | .err _ => True
+  | .trap => False
+
+theorem Safe.ok {c c' : Cx} {k : Nat} (h : Eff c c' k) : Safe (.ok c') c k := h
+
+theorem Safe.pre {c c1 : Cx} {k1 k2 : Nat} {r : CR Cx} (h1 : Eff c c1 k1) (h2 : Safe r c1 k2) : Safe r c (k1 + k2) := by
+  cases r with
+  | ok c' => exact h1.trans h2
+  | err e => trivial
+  | trap => exact h2
+
+theorem Safe.weaken {c : Cx} {k k' : Nat} {r : CR Cx} (h : Safe r c k) (hk : k ≤ k') : Safe r c k' := by
+  cases r with
+  | ok c' => exact Eff.weaken h hk
+  | err e => trivial
+  | trap => exact h
+
+theorem Safe.bind {c : Cx} {k1 k2 : Nat} {r : CR Cx} {f : Cx → CR Cx} (h1 : Safe r c k1)
+    (h2 : ∀ c1, Eff c c1 k1 → Safe (f c1) c1 k2) : Safe (r.bind f) c (k1 + k2) := by
+  cases r with
+  | ok c1 => exact Safe.pre h1 (h2 c1 h1)
+  | err e => trivial
+  | trap => exact h1
+
+theorem eff_addGlyph {c : Cx} (h : Good c) (g : Nat) : Eff c (c.addGlyph g) 0 :=
+  ⟨h.1.ins g, length_ins_ge _ _, rfl, rfl, by simp [Cx.addGlyph], h.2⟩
+
+theorem eff_extend {c : Cx} (h : Good c) (gs : List Nat) : Eff c (c.extendGlyphs gs) 0 :=
+  ⟨h.1.ext gs, length_ext_ge _ _, rfl, rfl, by simp [Cx.extendGlyphs], h.2⟩
+
+theorem eff_addTodo {c : Cx} (h : Good c) (id : Nat) (a : Option G16) (ha : ∀ s, a = some s → Inc16 s) :
+    Eff c (c.addTodo id a) 1 := by
+  refine ⟨h.1, Nat.le_refl _, rfl, rfl, by simp [Cx.addTodo], ?_⟩
+  intro t ht
+  simp only [Cx.addTodo, List.mem_cons] at ht
+  rcases ht with rfl | ht
+  · exact ha
+  · exact h.2 t ht
+
+/-! ## the subtable loops -/
+
+theorem addPairs_eff : ∀ (ps : List (Nat × Nat)) (c : Cx), Good c → Eff c (addPairs c ps) 0 := by
+  intro ps
+  induction ps with
+  | nil => intro c h; exact Eff.refl h
+  | cons p rest ih =>
+    intro c h
+    obtain ⟨t, r⟩ := p
+    unfold addPairs
+    split
+    · exact (eff_addGlyph h r).trans (ih _ (eff_addGlyph h r).good)
+    · exact ih c h
+
+theorem addSeqs_safe : ∀ (ps : List (Nat × PR (List Nat))) (c : Cx), Good c → Safe (addSeqs c ps) c 0 := by
+  intro ps
+  induction ps with
+  | nil => intro c h; exact Eff.refl h
+  | cons p rest ih =>
+    intro c h
+    obtain ⟨g, r⟩ := p
+    cases r with
+    | error e => simp [addSeqs, Safe]
+    | ok reps =>
+      simp only [addSeqs]
+      split
+      · exact Safe.pre (eff_extend h reps) (ih _ (eff_extend h reps).good)
+      · exact ih c h
+
+theorem addLigs_safe : ∀ (ls : List (PR (Nat × List Nat))) (c : Cx), Good c → Safe (addLigs c ls) c 0 := by
+  intro ls
+  induction ls with
+  | nil => intro c h; exact Eff.refl h
+  | cons l rest ih =>
+    intro c h
+    cases l with
+    | error e => simp [addLigs, Safe]
+    | ok p =>
+      obtain ⟨lig, comps⟩ := p
+      simp only [addLigs]
+      split
+      · exact Safe.pre (eff_addGlyph h lig) (ih _ (eff_addGlyph h lig).good)
+      · exact ih c h
+
+theorem addLigSets_safe : ∀ (ps : List (Nat × PR (List (PR (Nat × List Nat))))) (c : Cx), Good c →
+    Safe (addLigSets c ps) c 0 := by
+  intro ps
+  induction ps with
+  | nil => intro c h; exact Eff.refl h
+  | cons p rest ih =>
+    intro c h
+    obtain ⟨g, r⟩ := p
+    cases r with
+    | error e => simp [addLigSets, Safe]
+    | ok ligs =>
+      simp only [addLigSets]
+      split
+      · exact Safe.bind (addLigs_safe ligs c h) (fun c1 h1 => ih c1 h1.good)
+      · exact ih c h
+
+theorem reverseGate_ne_trap : ∀ (cs : List (PR Coverage)) (c : Cx), reverseGate c cs ≠ .trap := by
+  intro cs
+  induction cs with
+  | nil => intro c; simp [reverseGate]
+  | cons r rest ih =>
+    intro c
+    cases r with
+    | error e => simp [reverseGate]
+    | ok cov =>
+      simp only [reverseGate]
+      split
+      · exact ih c
+      · simp
+
+/-- the lookup record loop of `ContextFormat1`: no panic for a rule set index inside the coverage, at
+most one todo per record -/
+theorem ruleTodos1_safe (covGlyphs : List Nat) (i : Nat) (input : List Nat) (hi : i < covGlyphs.length) :
+    ∀ (recs : List SeqRec) (c : Cx) (seen : List Nat), Good c →
+      Safe (ruleTodos1 covGlyphs i input c seen recs) c recs.length := by
+  intro recs
+  induction recs with
+  | nil => intro c seen h; exact Eff.refl h
+  | cons r rest ih =>
+    intro c seen h
+    have hnone : ∀ s, (none : Option G16) = some s → Inc16 s := by intro s hs; cases hs
+    have hsome : ∀ g s, some (G16.ofList [g]) = some s → Inc16 s := by
+      intro g s hs; injection hs with hs; rw [← hs]; exact inc16_ofList _
+    have e : (r :: rest).length = 1 + rest.length := by simp; omega
+    rw [e]
+    unfold ruleTodos1
+    by_cases hs : seen.contains r.seqIdx = true
+    · simp only [hs, if_true]
+      exact Safe.pre (eff_addTodo h r.lookup none hnone) (ih _ _ (eff_addTodo h r.lookup none hnone).good)
+    · simp only [hs, Bool.false_eq_true, if_false]
+      by_cases hz : r.seqIdx = 0
+      · simp only [hz, if_true]
+        rw [List.getElem?_eq_getElem hi]
+        simp only []
+        exact Safe.pre (eff_addTodo h r.lookup _ (hsome _)) (ih _ _ (eff_addTodo h r.lookup _ (hsome _)).good)
+      · simp only [hz, if_false, subTrap]
+        have h1 : 1 ≤ r.seqIdx := by omega
+        simp only [h1, if_true]
+        cases hin : input[r.seqIdx - 1]? with
+        | some g =>
+          simp only []
+          exact Safe.pre (eff_addTodo h r.lookup _ (hsome _)) (ih _ _ (eff_addTodo h r.lookup _ (hsome _)).good)
+        | none =>
+          simp only []
+          exact Safe.weaken (ih c _ h) (by omega)
+
+/-- total number of lookup records of a rule list -/
+def rulesCost : List (PR Rule) → Nat
+  | [] => 0
+  | .error _ :: rest => rulesCost rest
+  | .ok r :: rest => r.recs.length + rulesCost rest
+
+theorem rulesLoop1_safe (covGlyphs : List Nat) (i : Nat) (hi : i < covGlyphs.length) :
+    ∀ (rules : List (PR Rule)) (c : Cx), Good c → Safe (rulesLoop1 covGlyphs i c rules) c (rulesCost rules) := by
+  intro rules
+  induction rules with
+  | nil => intro c h; exact Eff.refl h
+  | cons r rest ih =>
+    intro c h
+    cases r with
+    | error e => simp [rulesLoop1, Safe]
+    | ok rule =>
+      simp only [rulesLoop1, rulesCost]
+      split
+      · exact Safe.bind (ruleTodos1_safe covGlyphs i rule.input hi rule.recs c [] h) (fun c1 h1 => ih c1 h1.good)
+      · exact Safe.weaken (ih c h) (by omega)
+
+def setCost : Option (PR (List (PR Rule))) → Nat
+  | some (.ok rules) => rulesCost rules
+  | _ => 0
+
+def setsCost1 : List (Nat × Option (PR (List (PR Rule)))) → Nat
+  | [] => 0
+  | (_, s) :: rest => setCost s + setsCost1 rest
+
+theorem setsLoop1_safe (covGlyphs : List Nat) (cur : G16) :
+    ∀ (sets : List (Nat × Option (PR (List (PR Rule))))) (c : Cx) (i : Nat), Good c →
+      i + sets.length ≤ covGlyphs.length → Safe (setsLoop1 covGlyphs cur c i sets) c (setsCost1 sets) := by
+  intro sets
+  induction sets with
+  | nil => intro c i h _; exact Eff.refl h
+  | cons p rest ih =>
+    intro c i h hi
+    obtain ⟨g, s⟩ := p
+    simp only [List.length_cons] at hi
+    cases s with
+    | none =>
+      simp only [setsLoop1, setsCost1, setCost]
+      exact Safe.weaken (ih c (i + 1) h (by omega)) (by omega)
+    | some s =>
+      simp only [setsLoop1, setsCost1]
+      split
+      · cases s with
+        | error e => simp [Safe]
+        | ok rules =>
+          simp only [setCost]
+          exact Safe.bind (rulesLoop1_safe covGlyphs i (by omega) rules c h) (fun c1 h1 => ih c1 (i + 1) h1.good (by omega))
+      · exact Safe.weaken (ih c (i + 1) h (by omega)) (by omega)
+
+/-! ### class based contexts -/
+
+theorem clsGet_val (cd : ClassDef) (g : Nat) : ∃ v, clsGet cd g = .val v := by
+  cases cd with
+  | fmt1 s cs =>
+    simp only [clsGet, cls1Get]
+    by_cases h : g < s
+    · exact ⟨0, by simp [h]⟩
+    · have : s ≤ g := by omega
+      simp [h, subTrap, this, Res.bind]
+  | fmt2 rs => exact ⟨_, rfl⟩
+
+theorem makeClassSet_ok (cd : ClassDef) : ∀ gs : List Nat, ∃ ks, makeClassSet cd gs = .ok ks := by
+  intro gs
+  induction gs with
+  | nil => exact ⟨[], rfl⟩
+  | cons g rest ih =>
+    obtain ⟨v, hv⟩ := clsGet_val cd g
+    obtain ⟨ks, hks⟩ := ih
+    exact ⟨v :: ks, by simp [makeClassSet, hv, hks, CR.ofRes, CR.bind]⟩
+
+theorem intersectClass_ok (cd : ClassDef) (cl : Nat) : ∀ gs : List Nat, ∃ a, intersectClass cd cl gs = .ok a ∧ Inc16 a := by
+  intro gs
+  induction gs with
+  | nil => exact ⟨[], rfl, inc16_nil⟩
+  | cons g rest ih =>
+    obtain ⟨v, hv⟩ := clsGet_val cd g
+    obtain ⟨a, ha, hinc⟩ := ih
+    refine ⟨if v = cl then G16.ofList (g :: a) else a, by simp [intersectClass, hv, ha, CR.ofRes, CR.bind], ?_⟩
+    split
+    · exact inc16_ofList _
+    · exact hinc
+
+theorem ruleTodos2_safe (cd : ClassDef) (cur : G16) (hcur : Inc16 cur) (classI : Nat) (input : List Nat) :
+    ∀ (recs : List SeqRec) (c : Cx) (seen : List Nat), Good c →
+      Safe (ruleTodos2 cd cur classI input c seen recs) c recs.length := by
+  intro recs
+  induction recs with
+  | nil => intro c seen h; exact Eff.refl h
+  | cons r rest ih =>
+    intro c seen h
+    have hnone : ∀ s, (none : Option G16) = some s → Inc16 s := by intro s hs; cases hs
+    have e : (r :: rest).length = 1 + rest.length := by simp; omega
+    rw [e]
+    unfold ruleTodos2
+    by_cases hs : seen.contains r.seqIdx = true
+    · simp only [hs, if_true]
+      exact Safe.pre (eff_addTodo h r.lookup none hnone) (ih _ _ (eff_addTodo h r.lookup none hnone).good)
+    · simp only [hs, Bool.false_eq_true, if_false]
+      by_cases hz : r.seqIdx = 0
+      · simp only [hz, if_true]
+        obtain ⟨a, ha, hinc⟩ := intersectClass_ok cd classI cur
+        rw [ha]
+        simp only [CR.bind]
+        have hsome : ∀ s, some a = some s → Inc16 s := by intro s hs; injection hs with hs; rw [← hs]; exact hinc
+        exact Safe.pre (eff_addTodo h r.lookup _ hsome) (ih _ _ (eff_addTodo h r.lookup _ hsome).good)
+      · simp only [hz, if_false, subTrap]
+        have h1 : 1 ≤ r.seqIdx := by omega
+        simp only [h1, if_true]
+        cases hin : input[r.seqIdx - 1]? with
+        | some cl =>
+          simp only []
+          obtain ⟨a, ha, hinc⟩ := intersectClass_ok cd cl c.glyphs
+          rw [ha]
+          simp only [CR.bind]
+          have hsome : ∀ s, some a = some s → Inc16 s := by intro s hs; injection hs with hs; rw [← hs]; exact hinc
+          exact Safe.pre (eff_addTodo h r.lookup _ hsome) (ih _ _ (eff_addTodo h r.lookup _ hsome).good)
+        | none =>
+          simp only []
+          exact Safe.weaken (ih c _ h) (by omega)
+
+theorem rulesLoop2_safe (cd : ClassDef) (cur : G16) (hcur : Inc16 cur) (ours : List Nat) (classI : Nat) :
+    ∀ (rules : List (PR Rule)) (c : Cx), Good c →
+      Safe (rulesLoop2 cd cur ours classI c rules) c (rulesCost rules) := by
+  intro rules
+  induction rules with
+  | nil => intro c h; exact Eff.refl h
+  | cons r rest ih =>
+    intro c h
+    cases r with
+    | error e => simp [rulesLoop2, Safe]
+    | ok rule =>
+      simp only [rulesLoop2, rulesCost]
+      split
+      · exact Safe.bind (ruleTodos2_safe cd cur hcur classI rule.input rule.recs c [] h) (fun c1 h1 => ih c1 h1.good)
+      · exact Safe.weaken (ih c h) (by omega)
+
+def setsCost2 : List (Option (PR (List (PR Rule)))) → Nat
+  | [] => 0
+  | s :: rest => setCost s + setsCost2 rest
+
+theorem setsLoop2_safe (cd : ClassDef) (cur : G16) (hcur : Inc16 cur) (ours : List Nat) :
+    ∀ (sets : List (Option (PR (List (PR Rule))))) (c : Cx) (i : Nat), Good c →
+      Safe (setsLoop2 cd cur ours c i sets) c (setsCost2 sets) := by
+  intro sets
+  induction sets with
+  | nil => intro c i h; exact Eff.refl h
+  | cons s rest ih =>
+    intro c i h
+    cases s with
+    | none =>
+      simp only [setsLoop2, setsCost2, setCost]
+      exact Safe.weaken (ih c (i + 1) h) (by omega)
+    | some s =>
+      simp only [setsLoop2, setsCost2]
+      split
+      · cases s with
+        | error e => simp [Safe]
+        | ok rules =>
+          simp only [setCost]
+          exact Safe.bind (rulesLoop2_safe cd cur hcur ours _ rules c h) (fun c1 h1 => ih c1 (i + 1) h1.good)
+      · exact Safe.weaken (ih c (i + 1) h) (by omega)
+
+theorem ctx3Todos_safe (covs : List (PR Coverage)) (cur : G16) (hcur : Inc16 cur) :
+    ∀ (recs : List SeqRec) (c : Cx), Good c → Safe (ctx3Todos covs cur c recs) c recs.length := by
+  intro recs
+  induction recs with
+  | nil => intro c h; exact Eff.refl h
+  | cons r rest ih =>
+    intro c h
+    have e : (r :: rest).length = 1 + rest.length := by simp; omega
+    rw [e]
+    unfold ctx3Todos
+    split
+    · have hsome : ∀ s, some cur = some s → Inc16 s := by intro s hs; injection hs with hs; rw [← hs]; exact hcur
+      exact Safe.pre (eff_addTodo h r.lookup _ hsome) (ih _ (eff_addTodo h r.lookup _ hsome).good)
+    · cases hg : arrGet covs r.seqIdx with
+      | error e => simp [Safe]
+      | ok cov =>
+        simp only []
+        have hsome : ∀ s, some (G16.ofList ((covIter cov).filter (fun g => c.glyphs.contains g))) = some s → Inc16 s := by
+          intro s hs; injection hs with hs; rw [← hs]; exact inc16_ofList _
+        exact Safe.pre (eff_addTodo h r.lookup _ hsome) (ih _ (eff_addTodo h r.lookup _ hsome).good)
+
+theorem intersectCoverage_inc {cov : Coverage} {glyphs cur : G16} (h : intersectCoverage cov glyphs = some cur) : Inc16 cur := by
+  unfold intersectCoverage at h
+  simp only [] at h
+  split at h
+  · cases h
+  · injection h with h; rw [← h]; exact inc16_ofList _
+
+/-- the number of todos one subtable can push: its lookup records -/
+def subCost : Sub → Nat
+  | .ctx1 cov sets => (match cov with
+      | .ok cv => setsCost1 ((covIter cv).zip sets)
+      | .error _ => 0)
+  | .ctx2 _ _ sets => setsCost2 sets
+  | .ctx3 _ _ recs => recs.length
+  | _ => 0
+
+/-- **every subtable's `add_reachable_glyphs` is safe**: no panic, glyphs only grow, bounded todos -/
+theorem subAdd_safe (s : Sub) (c : Cx) (h : Good c) : Safe (subAdd c s) c (subCost s) := by
+  cases s with
+  | single1 cov delta =>
+    cases cov with
+    | error e => simp [subAdd, liftPR, Safe]
+    | ok cv => exact addPairs_eff _ c h
+  | single2 cov subs =>
+    cases cov with
+    | error e => simp [subAdd, liftPR, Safe]
+    | ok cv => exact addPairs_eff _ c h
+  | multiple cov seqs =>
+    cases cov with
+    | error e => simp [subAdd, liftPR, Safe]
+    | ok cv => exact addSeqs_safe _ c h
+  | ligature cov sets =>
+    cases cov with
+    | error e => simp [subAdd, liftPR, Safe]
+    | ok cv => exact addLigSets_safe _ c h
+  | reverse others cov subs =>
+    simp only [subAdd, subCost]
+    cases hg : reverseGate c others with
+    | trap => exact absurd hg (reverseGate_ne_trap others c)
+    | err e => simp [CR.bind, Safe]
+    | ok pass =>
+      simp only [CR.bind]
+      cases pass with
+      | false => exact Eff.refl h
+      | true =>
+        cases cov with
+        | error e => simp [liftPR, Safe]
+        | ok cv => exact addPairs_eff _ c h
+  | ctx1 cov sets =>
+    cases cov with
+    | error e => simp [subAdd, liftPR, Safe]
+    | ok cv =>
+      simp only [subAdd, liftPR, subCost]
+      cases hi : intersectCoverage cv c.current with
+      | none => exact Safe.weaken (Eff.refl h : Safe (.ok c) c 0) (by omega)
+      | some cur =>
+        exact setsLoop1_safe (covIter cv) cur _ c 0 h (by simp [List.length_zip]; omega)
+  | ctx2 cov cls sets =>
+    cases cov with
+    | error e => simp [subAdd, liftPR, Safe]
+    | ok cv =>
+      simp only [subAdd, liftPR, subCost]
+      cases hi : intersectCoverage cv c.current with
+      | none => exact Safe.weaken (Eff.refl h : Safe (.ok c) c 0) (by omega)
+      | some cur =>
+        cases cls with
+        | error e => simp [Safe]
+        | ok cd =>
+          obtain ⟨ours, ho⟩ := makeClassSet_ok cd c.glyphs
+          simp only [ho, CR.bind]
+          exact setsLoop2_safe cd cur (intersectCoverage_inc hi) ours sets c 0 h
+  | ctx3 covs others recs =>
+    simp only [subAdd, subCost]
+    cases hg : arrGet covs 0 with
+    | error e => simp [liftPR, Safe]
+    | ok cov0 =>
+      simp only [liftPR]
+      cases hi : intersectCoverage cov0 c.current with
+      | none => exact Safe.weaken (Eff.refl h : Safe (.ok c) c 0) (by omega)
+      | some cur =>
+        simp only []
+        split
+        · exact ctx3Todos_safe covs cur (intersectCoverage_inc hi) recs c h
+        · exact Safe.weaken (Eff.refl h : Safe (.ok c) c 0) (by omega)
+
+def subsCost : List (PR Sub) → Nat
+  | [] => 0
+  | .error _ :: rest => subsCost rest
+  | .ok s :: rest => subCost s + subsCost rest
+
+theorem subsLoop_safe : ∀ (subs : List (PR Sub)) (c : Cx), Good c → Safe (subsLoop c subs) c (subsCost subs) := by
+  intro subs
+  induction subs with
+  | nil => intro c h; exact Eff.refl h
+  | cons s rest ih =>
+    intro c h
+    cases s with
+    | error e => simp [subsLoop, Safe]
+    | ok s =>
+      simp only [subsLoop, subsCost]
+      exact Safe.bind (subAdd_safe s c h) (fun c1 h1 => ih c1 h1.good)
+
+
 end FontVerif.HandLayout
